@@ -285,6 +285,20 @@ class KlongInterpreter():
         del self._context[k]
         self._compiled_cache.clear()
 
+    def _compiled_args(self, var_syms):
+        """
+        The values of the variables of a compiled expression.  The code was generated for numbers and arrays: a variable
+        that has since been bound to anything else (a Python list set from Python, a string, a dictionary) raises, which
+        sends the expression to the interpreter.
+        """
+        args = [self._context[s] for s in var_syms]
+        nd = self._backend.np.ndarray
+        for v in args:
+            tv = type(v)
+            if not (tv is int or tv is float or isinstance(v, nd)):
+                raise TypeError("not a number or an array")
+        return args
+
     def _get_op_fn(self, s, arity):
         return self._vm[s] if arity == 1 else self._vd[s]
 
@@ -699,7 +713,7 @@ class KlongInterpreter():
                     if compiled and compiled is not False:
                         fn, var_syms = compiled
                         try:
-                            args = [self._context[s] for s in var_syms]
+                            args = self._compiled_args(var_syms)
                             return fn(*args)
                         except Exception:
                             pass
@@ -718,7 +732,7 @@ class KlongInterpreter():
                 if compiled and compiled is not False:
                     fn, var_syms = compiled
                     try:
-                        args = [self._context[s] for s in var_syms]
+                        args = self._compiled_args(var_syms)
                         return fn(*args)
                     except Exception:
                         pass
@@ -760,7 +774,7 @@ class KlongInterpreter():
             if compiled and compiled is not False:
                 fn, var_syms = compiled
                 try:
-                    args = [self._context[s] for s in var_syms]
+                    args = self._compiled_args(var_syms)
                     return fn(*args)
                 except Exception:
                     pass  # fall through to interpreter
